@@ -137,8 +137,8 @@ theorem honest_answer_is_yielded_partial (verify : Verify) (q : IterQuery) (i : 
     history** (proved in `Props/C07.lean`): if a live node holding the value can be reached, through
     the servers' answers, from any address the reader's lookup queried, the lookup queries it and its
     answer hands the value to the reader's callers.  `_partial`: larger networks need Kademlia's
-    routing argument over the union of the nodes' tables; that the actor applies exactly the
-    operations of `C07.lrun` is checked by the correspondence streams. -/
+    routing argument over the union of the nodes' tables.  The model actor applies exactly the
+    operations of `C07.lrun` to its lookups (`C07.step_iter`). -/
 theorem small_network_value_found_partial (U : Id → Addr → Prop) (hU : C07.Honest U) (univ : List Id)
     (huniv : ∀ i a, U i a → i ∈ univ) (hsmall : univ.length ≤ Constants.K)
     (q0 : IterQuery) (h0 : C07.CandOk U q0) (ops : List C07.LOp) (hops : C07.AllIn U (C07.listed ops))
